@@ -94,6 +94,7 @@ size_t libwifi_create_tag(struct libwifi_tagged_parameter *tagged_parameter, int
     tagged_parameter->header.tag_num = tag_number;
     tagged_parameter->body = malloc(tag_length);
     if (tagged_parameter->body == NULL) {
+        tagged_parameter->header.tag_len = 0;
         return -ENOMEM;
     }
     memset(tagged_parameter->body, 0, tag_length);
@@ -127,15 +128,16 @@ int libwifi_quick_add_tag(struct libwifi_tagged_parameters *tags, int tag_number
                           const unsigned char *tag_data, size_t tag_length) {
     struct libwifi_tagged_parameter tagged_parameter = {0};
 
-    size_t ret = libwifi_create_tag(&tagged_parameter, tag_number, tag_data, tag_length);
-    if (ret <= 0) {
-        return ret;
+    // libwifi_create_tag reports failure as a negative errno value converted to size_t
+    ssize_t created = (ssize_t) libwifi_create_tag(&tagged_parameter, tag_number, tag_data, tag_length);
+    if (created < 0) {
+        return (int) created;
     }
 
-    libwifi_add_tag(tags, &tagged_parameter);
+    int ret = libwifi_add_tag(tags, &tagged_parameter);
     libwifi_free_tag(&tagged_parameter);
 
-    return 0;
+    return ret;
 }
 
 int libwifi_check_tag(struct libwifi_tagged_parameters *tags, int tag_number) {
